@@ -286,7 +286,12 @@ def render_field(rng, k, v, origin, first):
         h = v.hex()
         if rng.random() < 0.4:
             h = "".join(c.upper() if rng.random() < 0.5 else c for c in h)
-        return [b"\\#", b"%d" % len(v)] + ([h.encode()] if v else [])
+        words = [h]
+        if v and rng.random() < 0.3:
+            # RFC 3597 section 5: the hexadecimal data may be split into words with an even number of digits
+            cuts = sorted({2 * rng.randint(1, len(v)) for _ in range(rng.choice([1, 1, 2, 3]))} - {2 * len(v)})
+            words = [h[a:b] for a, b in zip([0] + cuts, cuts + [len(h)])]
+        return [b"\\#", b"%d" % len(v)] + ([w.encode() for w in words] if v else [])
     raise ValueError(k)
 
 
